@@ -403,9 +403,40 @@ def infeasible_rel(lin, fact):
     return infeasible(Lin(facts))
 
 
+def _propagate_constants(facts):
+    """Atoms fixed to a constant by an equality (x == c) are substituted inside the non-linear monomials of the other
+    facts (monomials are opaque LP variables otherwise: a*b with b == 0 would stay unknown)."""
+    if not any(len(m) > 1 for k, p in facts for m in p.t):
+        return facts
+    fixed = {}
+    for k, p in facts:
+        if k == "eq":
+            ms = [m for m in p.t if m != ()]
+            if len(ms) == 1 and len(ms[0]) == 1:
+                fixed[ms[0][0]] = Poly.const(-p.t.get((), 0) / p.t[ms[0]])
+    if not fixed:
+        return facts
+    out = []
+    for k, p in facts:
+        if any(len(m) > 1 and any(a in fixed for a in m) for m in p.t):
+            d = Poly()
+            for m, c in p.t.items():
+                if len(m) > 1 and any(a in fixed for a in m):
+                    q = Poly.const(c)
+                    for a in m:
+                        q = q * (fixed[a] if a in fixed else Poly.atom(a))
+                    d = d + q
+                else:
+                    d = d + Poly({m: c})
+            p = d
+        out.append((k, p))
+    return out
+
+
 def infeasible(lin, extra=()):
     """Is the conjunction of facts (plus extra) unsatisfiable over the naturals (relaxed)?"""
     facts = list(lin.facts) + list(extra)
+    facts = _propagate_constants(facts)
     eqs = [p for k, p in facts if k == "eq"]
     subst, bad = _solve_eqs(eqs)
     if bad:
